@@ -85,6 +85,11 @@ fn response_bytes(kind: &str, sid: u128, ix: u64, seed: u64) -> (Vec<u8>, usize)
     (m, hdr)
 }
 
+/// Offset of the trailing command bytes of a bare response encoding (`hdr` = 0: none).
+fn _hdr_or_len(bytes: &[u8], hdr: usize) -> usize {
+    if hdr == 0 { bytes.len() } else { hdr }
+}
+
 fn req_step(q: &mut Req, rep: &mut Replica, cache: &PeerCache, call: &Value, exp: &Value, prev_index: u64, seed: u64) -> Result<u64, Fail> {
     let what = call.s("call");
     let ready_before = q.r.ready();
@@ -109,7 +114,7 @@ fn req_step(q: &mut Req, rep: &mut Replica, cache: &PeerCache, call: &Value, exp
                 return Err(Fail("C18:ready-inconsistent".into(), format!("requester ready() was {ready_before} but poll gave {res}"), json!({"call": call})));
             }
         }
-        "recv" => {
+        "recv" | "push" => {
             let m = call.g("msg");
             let sid = SID[m.u("s") as usize];
             let ix = match m.s("ix") {
@@ -123,12 +128,37 @@ fn req_step(q: &mut Req, rep: &mut Replica, cache: &PeerCache, call: &Value, exp
                 "Offer" => (enc(&MResponse::Offer { session_id: sid, head: CmdId::from([5u8; 32]) }), 0),
                 _ => (enc(&MResponse::EndSession { session_id: sid }), 0),
             };
+            // `push`: the same message inside a SyncType::Push (message, graph id, then the command
+            // bytes), decoded by SyncIncoming::decode and handed to receive_push
+            let bytes = if what == "push" {
+                let (msg, _): (MResponse, _) = dec(&bytes).unwrap_or_else(|e| vrt::die(&format!("own message does not decode: {e}")));
+                let mut b = enc(&MSyncType::Push { message: msg, graph_id: q.graph });
+                b.extend_from_slice(&bytes[_hdr_or_len(&bytes, _hdr)..]);
+                b
+            } else {
+                bytes
+            };
             // exact-size heap allocation so that an out-of-buffer slice is detectable by address
             let data: Box<[u8]> = bytes.into_boxed_slice();
             let lo = data.as_ptr() as usize;
             let hi = lo + data.len();
+            let is_push = what == "push";
             let r = vrt::catch_any(|| {
-                q.r.receive(&data).map(|o| {
+                let got = if is_push {
+                    match SyncIncoming::decode(&data) {
+                        Ok(SyncIncoming::Push(p)) => {
+                            if p.session_id() != sid || p.graph_id() != q.graph {
+                                vrt::die("decode changed the session or graph id of a push");
+                            }
+                            q.r.receive_push(p)
+                        }
+                        Ok(_) => vrt::die("a push decoded as another message type"),
+                        Err(e) => vrt::die(&format!("a well-formed push was rejected by decode: {e}")),
+                    }
+                } else {
+                    q.r.receive(&data)
+                };
+                got.map(|o| {
                     o.map(|cmds| {
                         cmds.iter()
                             .map(|c| {
@@ -142,7 +172,7 @@ fn req_step(q: &mut Req, rep: &mut Replica, cache: &PeerCache, call: &Value, exp
                 })
             });
             res = match r {
-                Err(p) => return Err(Fail("C18:panic".into(), format!("SyncRequester::receive panicked: {p}"), json!({"call": call}))),
+                Err(p) => return Err(Fail("C18:panic".into(), format!("SyncRequester::receive/receive_push panicked: {p}"), json!({"call": call}))),
                 Ok(Err(e)) => err_name(&e),
                 Ok(Ok(None)) => "none".into(),
                 Ok(Ok(Some(cmds))) => {
